@@ -79,6 +79,8 @@ ExpectedYields(d, src, klass, depthLimit, includeSource) ==
     \cup (IF includeSource /\ Matches(d[src], klass) THEN {[node |-> src, parent |-> 0, depth |-> 0]} ELSE {})
 
 TraverseLaw(r) ==
+    IF Cardinality(KidPairs(r.dump)) # Cardinality(KidIds(r.dump)) THEN "Traverse.not-a-tree"       \* some token is listed twice: depth and parent are not defined
+    ELSE
     LET exp == ExpectedYields(r.dump, r.src, r.klass, r.depthLimit, r.includeSource = "yes")
         got == {r.yields[i] : i \in DOMAIN r.yields} IN
     IF Cardinality(got) # Len(r.yields) THEN "Traverse.yielded-twice"
